@@ -352,6 +352,45 @@ class Run:
         finally:
             self.fs.armed, self.fs.log, self.fs.write_calls = armed, log, wc
 
+    def probe_reader(self, path):
+        """Run the library's reader on ``path`` in a forked grandchild: ('returned', None) | ('raised', type name) |
+        ('killed', signal name).  A corrupted pickle can take the interpreter down (C extensions re-opening files with
+        garbage parameters); that must be observed, not suffered by the run itself."""
+        import signal
+
+        r, w = os.pipe()
+        pid = os.fork()
+        if pid == 0:
+            code = 0
+            try:
+                os.close(r)
+                try:
+                    self.plain_load(path)
+                    os.write(w, b'returned')
+                except Exception as e:  # noqa: BLE001
+                    os.write(w, ('raised ' + type(e).__name__).encode())
+            except BaseException:  # noqa: BLE001
+                code = 3
+            finally:
+                os._exit(code)
+        os.close(w)
+        data = b''
+        while True:
+            b = os.read(r, 4096)
+            if not b:
+                break
+            data += b
+        os.close(r)
+        _, status = os.waitpid(pid, 0)
+        if os.WIFSIGNALED(status):
+            return 'killed', signal.Signals(os.WTERMSIG(status)).name
+        txt = data.decode()
+        if txt == 'returned':
+            return 'returned', None
+        if txt.startswith('raised '):
+            return 'raised', txt[7:]
+        raise HarnessError(f'reader probe failed: status {status}, output {txt!r}')
+
     def resolve_fault(self, f, size_est: int):
         if not f:
             return None
@@ -614,11 +653,18 @@ class Run:
         # ("truncated at any byte, as an interrupted write leaves it") needs no premise: the property covers it as such.
         unreadable = False
         etype = None
-        try:
-            self.plain_load(path)
-        except Exception as e:  # noqa: BLE001
-            unreadable = True
-            etype = type(e).__name__
+        how, etype = self.probe_reader(path)
+        if how == 'killed':
+            fmt = self.datasets[entry['key']['ds']]['fmt'] if 'key' in entry else 'save'
+            self.stats.fault(kind)
+            self.trace.log(ev='DAMAGE', step=self.step, path=os.path.basename(path), kind=kind, k=k, n=n, reader='killed by ' + etype)
+            self.violation(
+                'load_crashes_interpreter',
+                f"{fmt} cache damaged by {kind}@{k} (of {n} bytes): Trajectory.from_cache does not raise, the interpreter dies ({etype}); "
+                'the loader calls it unguarded, so loading can never fall back to the source files',
+                {'fmt': fmt, 'kind': kind},
+            )
+        unreadable = how == 'raised'
         if not unreadable and kind in ('truncate', 'empty') and len(new) < n:
             unreadable = True
             etype = 'none_raised'
